@@ -1,29 +1,18 @@
 package c07
 
 import (
-	"strings"
 	"testing"
 	"time"
 )
 
-func fillRK(t *testing.T, w *world, lines []string) {
-	for _, l := range lines {
-		out := w.exec(strings.Fields(l))
-		if out != "ok" {
-			t.Fatalf("%s -> %s", l, out)
-		}
-	}
-}
-
+// the witness of F-C07-3 on the real LocationHelper (index without corpus, nil owner, two signers)
 func TestLocationTwoSigners(t *testing.T) {
 	g := newGenWorld(nil)
 	g.pn(0)
-	g.claim(0, 0, "set", "latitude", "1", 400)
-	g.claim(0, 1, "set", "latitude", "2", 300)
-	g.claim(0, 0, "set", "longitude", "5", 100)
-	got := g.w.location(0, time.Time{}, "a")
-	t.Logf("location = %s", got)
-	if got != "1 5" {
+	g.claim(0, 0, "set", "latitude", "1", 4000)
+	g.claim(0, 1, "set", "latitude", "2", 3000)
+	g.claim(0, 0, "set", "longitude", "5", 1000)
+	if got := g.w.location(0, time.Time{}, "a"); got != "1 5" {
 		t.Errorf("got %s want 1 5", got)
 	}
 }
